@@ -40,6 +40,7 @@ type Session struct {
 	Stats     Stats
 	LastErr   string
 	Log       io.Writer
+	Gen       int // incremented whenever the solver process was restarted (all assertions lost)
 }
 
 func New(kind string, timeoutMs int) (*Session, error) {
@@ -151,11 +152,25 @@ func (s *Session) Check(extra []*term.Term, wantModel bool) (Result, map[string]
 	s.send(sb.String())
 	res := Unknown
 	sawErr := false
+	// the solver's own timeout is cooperative and is not always honoured
+	// (preprocessing of wide multipliers/dividers): enforce it from outside.
+	proc := s.cmd.Process
+	killed := false
+	watchdog := time.AfterFunc(time.Duration(s.TimeoutMs)*time.Millisecond+3*time.Second, func() {
+		killed = true
+		proc.Kill()
+	})
+	defer watchdog.Stop()
 	for {
 		l, err := s.readLine()
 		if err != nil {
-			s.LastErr = "solver died: " + err.Error()
-			s.Stats.Errors++
+			if killed {
+				s.LastErr = "solver exceeded its time limit and was killed"
+				s.Stats.Unknown++
+			} else {
+				s.LastErr = "solver died: " + err.Error()
+				s.Stats.Errors++
+			}
 			s.restart()
 			return Unknown, nil
 		}
@@ -201,6 +216,7 @@ func (s *Session) Check(extra []*term.Term, wantModel bool) (Result, map[string]
 func (s *Session) restart() {
 	s.Close()
 	s.start()
+	s.Gen++
 }
 
 func (s *Session) getModel() map[string]uint64 {
